@@ -7,6 +7,5 @@ CONSTANTS
   MaxEnv = 2
   CountNullVersion = TRUE
   Variant = "ok"
-INVARIANTS TypeOK AgreeSound AgreeComplete ErrOnlyLate CtxOnlyCancelled CancelHonoured DeadlineHonoured DdlWaits
-
+INVARIANTS ReachMarks TypeOK AgreeSound AgreeComplete ErrOnlyLate CtxOnlyCancelled CancelHonoured DeadlineHonoured DdlWaits
 CHECK_DEADLOCK FALSE
